@@ -13,6 +13,8 @@ CLAIMS = {
          "trusted: murmur3 via hash.Hash32 contracts (deterministic function of seed and bytes written since Reset), math.* opaque, m>=1/k>=0 of the float sizing formula assumed; govc itself", "4-C16"),
  "C10": ("Proof of the statement itself for levelManager.searchLowerBound (after two fix: commits): over all tables of all levels, it returns the entry of the target user key with the largest version not above the read timestamp that any table holds, and not-found when there is none - loop invariants over the level slice and the container/list of handles, for every number of tables, levels, entries and blocks (block size is symbolic: block boundaries are a ghost array). Carried by: Data.LowerBound (binary search, first entry >= key), Index.SearchLowerBound (first block whose EndKey >= key), fetchAndSearchLowerBound, filter.Contains (a member is never denied: C16), the byte-level versioned-key lemmas (keys containing '@'), and four pure lemmas of the table model (tbl_below, tbl_miss, tbl_hit_other, tbl_hit_same: what the two-level search finds in a sorted table cut into blocks).",
          "the ghost table model (entries of a file, block boundaries, index/filter agreement: lmOK) is a precondition here; that flush, compaction and recovery establish it is C09/C01/C02's business and not yet proved; fetch (file read + decode) is a trusted contract backed by C11; library contracts for container/list, strings, strconv, hash.Hash32; sequential semantics under levelManager.mu", "4-C10"),
+ "C12": ("Proof of the lock discipline (after one fix: commit): every field of DB, memtable, levelManager, oracle and WAL carries a concurrency classification (guarded_by(lock) / immutable / atomic / lock), and every load and store of such a field in every function of the engine and wal packages - contracted or not - is an obligation: the guarding lock of that object is in the activation's ghost lockset in the right mode (read for loads, write for stores), or the object was allocated by this activation and is not shared yet. Also: no lock is taken twice by one activation, every Unlock matches a held lock, locks are balanced at exit, callees documented as 'call with lock' are called with it. An unclassified field of a shared type fails the run.",
+         "decided: guarded-field discipline + lock balance, for all functions of package originium and wal, unbounded (no schedule executed). NOT decided by this check: panic freedom of the whole engine (covered per function in the other properties' obligations only where a function is under contract), pooled-buffer ownership (C11), and that the discipline implies data-race freedom (assumed: Go memory model DRF-SC; sync primitives correct). skiplist/filter/tableHandle/Txn objects are confined to their owner (reached only through a guarded field or by one goroutine). Uncontracted callees are abstracted by a static write-set analysis (dynamic calls assumed to store only through their arguments).", "4-C12"),
  "C07": ("Proof at the level of fingerprints: hasConflict returns true exactly when a remembered committed transaction with ts > readTs wrote a read fingerprint (nested-loop invariants); cleanUpCommittedTxns keeps exactly the entries above the new mark (in-place filter with aliasing slices); newCommitTs refuses exactly when the ghost commit history Hist contains such a transaction (oracle invariant orcInv/histInv: nothing above the clean-up mark is forgotten, the mark never exceeds an open reader); Get records a fingerprint only for store reads; Commit returns ErrConflictTxn iff that holds and then changes neither View nor Hist; read-only / write-only transactions cannot conflict (empty readsFp).",
          "sequential semantics of each critical section (oracle lock held); watermark client contracts trusted (justified by C13); utils.Hash as an uninterpreted deterministic function: the key-level statement equals the fingerprint-level one when no two keys in play collide; DB.search/rawset used through their contracts; fewer than 2^63 commits", "4-C07"),
  "C08": ("Proof: modify/Set/Delete return the documented error in exactly the documented cases and then change nothing; otherwise they only touch the private buffer (frame conditions proved: assigns map pendingWrites, map writesFp). Discard only sets flags and finishes the read mark. Commit on a discarded transaction returns ErrDiscardedTxn, on conflict ErrConflictTxn, in both cases with View and Hist unchanged. View/Update return ErrDBClosed when closed, Update returns the closure's error without calling Commit and with View unchanged.",
